@@ -2,6 +2,8 @@
 # No-false-alarm sweep: every check's quick tier under N other VERIF_SEED values on the unchanged tree; all must exit 0.
 # usage: selftest/seed_sweep.sh [first] [last]
 cd "$(dirname "$0")/.."
+# under `vp run --with-repo` build against the repository snapshot, not the live /repo
+if [ -n "${VP_RUN_REPO:-}" ]; then sed -i "s#path = \"/repo\"#path = \"$VP_RUN_REPO\"#" sim/Cargo.toml; fi
 first=${1:-1}; last=${2:-100}
 bad=0
 for id in C04 C05 C09 C11 C13 C15 C16; do
